@@ -8,8 +8,10 @@ from d42 import validate
 from d42.utils import from_native
 
 MODULE = "D42.Props.C14"
-THEOREMS = []
-FILES = ["D42/Model/Data.lean", "D42/Model/Validate.lean", "D42/Model/Subst.lean", "D42/Props/C14.lean"]
+THEOREMS = ["fromNative_total", "fromNative_refuses", "fromNative_error_kind", "fromNative_accepts",
+            "fromNative_generates", "fromNative_exact"]
+FILES = ["D42/Model/Data.lean", "D42/Model/Validate.lean", "D42/Model/Subst.lean", "D42/Model/Gen.lean",
+         "D42/Spec/Conforms.lean", "D42/Props/C02.lean", "D42/Props/C14.lean"]
 
 EVIDENCE = dict(
     level="proof",
